@@ -24,7 +24,7 @@ def run(tier):
                    rule="pipeline level: one path = (configuration, call history shapes, k class)", describe=P.describe)
     js.append(Job("harness.pipeline", "c06_two_funcs", P.shards("c06_two_funcs", 5), 200, bounds=dict(functions=2, dict_keys="subsets of {a,b,c,d} with <= 2 keys", k="symbolic"),
                   rule="module stub of two functions sharing a parameter name: one path = (two dict shapes, rewriter, row order, k class)", describe=P.describe))
-    js += [J("c06_quick", 600, 5), J("c06_nestedx", 300, 6)] if tier == "quick" else [J("c06_quick", 200, 5), J("c06_nestedx", 150, 6), J("c06_nested", 300, 7), J("c06_dicts", 300, 5), J("c06_thorough", 300, 5)]
+    js += [J("c06_quick", 600, 5), J("c06_nestedx", 300, 6), J("c06_gen2", 120, 4)] if tier == "quick" else [J("c06_gen2", 100, 4), J("c06_quick", 200, 5), J("c06_nestedx", 150, 6), J("c06_nested", 300, 7), J("c06_dicts", 300, 5), J("c06_thorough", 300, 5)]
     return run_check(PID, tier, js, H.FUNCTIONS + P.FUNCTIONS, ASSUMPTIONS + [
         "pipeline level: the same symbolic k configures the tracer and stub generation; stored rows (JSON crossing a real in-memory SQLite) and the "
         "rendered stub are inspected: k == 0 => no TypedDict in any row or in the stub; k > 0 => every generated class has <= k fields counting "
